@@ -86,8 +86,8 @@ func (vc *VC) strLit(s string) Term {
 		vc.axioms = append(vc.axioms, fmt.Sprintf("(forall ((q!s Str)) (! (=> (= (strlen q!s) 0) (= q!s %s)) :pattern ((strlen q!s))))", name))
 		vc.axioms = append(vc.axioms, fmt.Sprintf("(forall ((q!s Str)) (! (not (strlt q!s %s)) :pattern ((strlt q!s %s))))", name, name))
 	}
-	for _, o := range vc.strLits {
-		vc.axioms = append(vc.axioms, fmt.Sprintf("(distinct %s %s)", name, o.S))
+	for _, k := range sortedKeys(vc.strLits) {
+		vc.axioms = append(vc.axioms, fmt.Sprintf("(distinct %s %s)", name, vc.strLits[k].S))
 	}
 	vc.strLits[s] = t
 	return t
@@ -230,7 +230,7 @@ func (vc *VC) allocObject(st *State, t types.Type) Term {
 func (vc *VC) zeroFill(st *State, base Term, t types.Type) error {
 	sorts := map[Sort]bool{}
 	vc.leafSorts(t, sorts)
-	for s := range sorts {
+	for _, s := range sortedKeys(sorts) {
 		old := vc.heap(st, s)
 		z, err := vc.zeroOfSort(s)
 		if err != nil {
